@@ -488,6 +488,10 @@ pub fn generate(rng: &mut Rng, tier: Tier, emit: &mut dyn FnMut(String)) {
                     emit(case_line(dop, &desc, db, &cells));
                 }
             }
+            // the whole UDT value null
+            if dop == "dv" && vi % 5 == 0 {
+                emit(format!("dv {} ; {} ; NULL", desc, db_tokens(db)).replace("  ", " "));
+            }
             // malformed payloads (wrong width for int)
             if vi % 11 == 0 && m > 0 {
                 let mut cells = gen_cells(rng, db, 0);
@@ -906,7 +910,9 @@ pub fn run(case: &str, ctx: &mut Ctx) -> String {
         return "bad-case descriptor-differs-from-table".to_owned();
     }
     let Some(db) = parse_db(&sections[1]) else { return "bad-case".to_owned() };
-    let Some(vals) = parse_vals(&sections[2]) else { return "bad-case".to_owned() };
+    // `dv … ; … ; NULL`: the whole UDT value is null
+    let whole_null = op == "dv" && sections[2] == ["NULL"];
+    let Some(vals) = (if whole_null { Some(vec![]) } else { parse_vals(&sections[2]) }) else { return "bad-case".to_owned() };
     let lv = all_leaves(d);
     match op {
         "sv" | "sr" => {
@@ -954,7 +960,7 @@ pub fn run(case: &str, ctx: &mut Ctx) -> String {
                 let active: Vec<&FieldD> = lv.iter().filter(|(_, s)| !s).map(|(f, _)| f).collect();
                 let types_agree = db.iter().all(|c| active.iter().all(|f| f.col() != c.name || f.ty == c.ty));
                 if d.by_name && nodup(&db) && types_agree {
-                    match de(&db, &encode_cells(cells)) {
+                    match de(&db, Some(&encode_cells(cells))) {
                         Ok(back) => {
                             for (((f, skipped), v), got) in lv.iter().zip(&vals).zip(&back) {
                                 let present = db.iter().any(|c| c.name == f.col());
@@ -979,7 +985,18 @@ pub fn run(case: &str, ctx: &mut Ctx) -> String {
             if (op == "dv") != (d.kind == "value") {
                 return "bad-case".to_owned();
             }
-            let raw = de(&db, &encode_cells(&vals));
+            let bytes = encode_cells(&vals);
+            let raw = de(&db, if whole_null { None } else { Some(&bytes) });
+            if whole_null {
+                return match raw {
+                    Ok(_) => {
+                        ctx.fail("a null UDT value was deserialized into a struct");
+                        "ok NULL-ACCEPTED".to_owned()
+                    }
+                    Err(DeErr::TypeCheck(e)) => format!("err typecheck {}", tc_err_kind(&d.kind, &e)),
+                    Err(DeErr::Deser(e)) => format!("err deser {}", de_err_kind(&d.kind, &e)),
+                };
+            }
             let (res, line): (Result<Vec<Leaf>, String>, String) = match raw {
                 Ok(v) => {
                     let l = fmt_ok(&v);
